@@ -1999,8 +1999,10 @@ class Backend:
                     else:
                         subdir = os.path.join('{mandir}', 'man' + num)
                 fname = f.fname
-                if m.locale: # strip locale from file name
-                    fname = fname.replace(f'.{m.locale}', '')
+                if m.locale: # strip locale from file name: foo.fr.1 -> foo.1
+                    stem, ext = os.path.splitext(fname)
+                    if stem.endswith(f'.{m.locale}'):
+                        fname = stem[:-len(m.locale) - 1] + ext
                 srcabs = f.absolute_path(self.environment.get_source_dir(), self.environment.get_build_dir())
                 dstname = os.path.join(subdir, os.path.basename(fname))
                 dstabs = dstname.replace('{mandir}', manroot)
